@@ -292,10 +292,11 @@ class World:
             ev.append(("move", dest))
         for key in sorted(self.helpers):
             ev.append(("mutate-src", key))
-        if self.sibling is not None:
-            for key in sorted(self.helpers):
-                if any(fs[:2] == ("ref", key[0]) for _, fs in OUTERS[self.oname]):
-                    ev.append(("move-helper", key))
+        for key in sorted(self.helpers):
+            # helpers of the classes this class refers to (with a second holder) or nests by value: an object that has been
+            # MOVED before it is used as a value is part of the histories
+            if (self.sibling is not None and any(fs[:2] == ("ref", key[0]) for _, fs in OUTERS[self.oname])) or any(fs[:2] == ("hyb", key[0]) for _, fs in OUTERS[self.oname]):
+                ev.append(("move-helper", key))
         # a copy of a PART (nested by value, or bound to a reference field) is an object of its own: it can be moved
         if self.extra is None:
             for fn, fs in OUTERS[self.oname]:
